@@ -59,7 +59,8 @@ def decodeDSchema (j : Json) : Except String DSchema := do
     pure (⟨← strField d "name", ← strList d "hooks", boolField d "marks" true⟩ : DImpl)
   let objs ← (arrField j "objs").mapM fun o => do
     pure (⟨← strField o "name", ← decodeUses o, ← (arrField o "fields").mapM decodeOutField⟩ : ObjDef)
-  pure ⟨← (arrField j "ins").mapM decodeInDef, objs, impls, ← strField j "query"⟩
+  let abs ← (arrField j "abstracts").mapM fun a => do pure (⟨← strField a "name", ← decodeUses a⟩ : AbsDef)
+  pure ⟨← (arrField j "ins").mapM decodeInDef, objs, impls, ← strField j "query", abs⟩
 
 partial def decodeSel (j : Json) : Except String Sel := do
   let args ← (arrField j "args").mapM fun a => do
